@@ -1,0 +1,7 @@
+//go:build !verif
+
+package threshold
+
+// verifYield marks a point at which a verification harness may reschedule the
+// calling goroutine. Without the `verif` build tag it does nothing.
+func verifYield(string) {}
